@@ -378,10 +378,18 @@ func (g *claimGen) mutate(c crosschaintypes.ExternalClaim, field string) crossch
 		case "receiver":
 			m.Receiver = g.bech()
 		case "target":
-			if m.TargetIbc == "" {
-				m.TargetIbc = hex.EncodeToString([]byte("erc20"))
-			} else {
-				m.TargetIbc = ""
+			// another target: none, the EVM, an IBC route in its two spellings, and literal strings that look like
+			// the parts of a route
+			spell := []string{"", "erc20", "module/evm", "ibc/0/px", "px/transfer/channel-0", "channel-0/px", "transfer/channel-0", "ibc/1/px", "px/transfer/channel-1", "channel-1/px"}
+			cur := m.TargetIbc
+			for tries := 0; tries < 20 && m.TargetIbc == cur; tries++ {
+				m.TargetIbc = hex.EncodeToString([]byte(spell[g.rng.IntN(len(spell))]))
+				if m.TargetIbc == hex.EncodeToString(nil) {
+					m.TargetIbc = ""
+				}
+			}
+			if m.TargetIbc == cur {
+				return nil
 			}
 		case "height":
 			m.BlockHeight = bump(m.BlockHeight)
